@@ -217,6 +217,8 @@ pub const DEF_NAMES: [&str; 4] = ["Alpha", "Beta", "Gamma", "Delta"];
 
 struct G<'c> {
     cfg: &'c GenCfg,
+    /// which earlier definitions are object types (usable as intersection members)
+    object_defs: Vec<usize>,
     /// number of defs that may be referenced freely (earlier defs)
     ndefs_before: usize,
     /// total number of defs (self/forward references allowed only in guarded positions)
@@ -453,8 +455,9 @@ impl<'c> G<'c> {
         let n = s.range(2, 3);
         let mut parts = vec![];
         for _ in 0..n {
-            if s.chance(1, 4) && self.ndefs_before > 0 {
-                parts.push(D::Ref(s.below(self.ndefs_before)));
+            let cands: Vec<usize> = self.object_defs.iter().copied().filter(|i| *i < self.ndefs_before).collect();
+            if s.chance(1, 3) && !cands.is_empty() {
+                parts.push(D::Ref(cands[s.below(cands.len())]));
             } else {
                 parts.push(self.object(s, depth, false));
             }
@@ -502,6 +505,15 @@ impl<'c> G<'c> {
     }
 }
 
+fn object_defs(env: &Env) -> Vec<usize> {
+    env.defs
+        .iter()
+        .enumerate()
+        .filter(|(_, (_, d))| matches!(d, D::Object { index: None, .. }))
+        .map(|(i, _)| i)
+        .collect()
+}
+
 /// Generate an environment of named definitions and `n_roots` root types.
 pub fn gen_env_and_roots(s: &mut Src, cfg: &GenCfg, n_roots: usize) -> (Env, Vec<D>) {
     let ndefs = s.below(cfg.max_defs + 1);
@@ -509,6 +521,7 @@ pub fn gen_env_and_roots(s: &mut Src, cfg: &GenCfg, n_roots: usize) -> (Env, Vec
     for i in 0..ndefs {
         let g = G {
             cfg,
+            object_defs: object_defs(&env),
             ndefs_before: i,
             ndefs_total: ndefs,
         };
@@ -524,6 +537,7 @@ pub fn gen_env_and_roots(s: &mut Src, cfg: &GenCfg, n_roots: usize) -> (Env, Vec
     }
     let g = G {
         cfg,
+        object_defs: object_defs(&env),
         ndefs_before: ndefs,
         ndefs_total: ndefs,
     };
@@ -538,6 +552,7 @@ pub fn gen_env_and_roots(s: &mut Src, cfg: &GenCfg, n_roots: usize) -> (Env, Vec
 pub fn gen_type(s: &mut Src, cfg: &GenCfg, env_size: usize, depth: usize) -> D {
     let g = G {
         cfg,
+        object_defs: vec![],
         ndefs_before: env_size,
         ndefs_total: env_size,
     };
